@@ -1,8 +1,8 @@
 package props
 
 import (
-	"encoding/hex"
 	"bytes"
+	"encoding/hex"
 	"fmt"
 	"math/big"
 	"strings"
